@@ -9,12 +9,68 @@ from ..common import log
 
 # byte-granular targets whose listing is byte-wise (Granularity() = ActListGran = 1)
 TARGETS = [
-    dict(cpu="z80", db="db", ds="ds", segs={"code": (1, 0xffff)}, share_asm="asmIntel"),
-    dict(cpu="6502", db="byt", ds="dfs", segs={"code": (1, 0xffff)}, share_asm="asmMoto"),
-    dict(cpu="8051", db="db", ds="ds", share_asm="asmIntel",
+    dict(cpu="z80", db="db", ds="ds", segs={"code": (1, 0xffff)}, share_asm="asmIntel", rep="dup"),
+    dict(cpu="6502", db="byt", ds="dfs", segs={"code": (1, 0xffff)}, share_asm="asmMoto", rep="moto"),
+    dict(cpu="8051", db="db", ds="ds", share_asm="asmIntel", rep="dup",
          segs={"code": (1, 0xffff), "data": (2, 0xff), "xdata": (4, 0xffff), "idata": (3, 0xff)}),
-    dict(cpu="8086", db="db", ds="ds", segs={"code": (1, 0xffff)}, share_asm="asmIntel"),
+    dict(cpu="8086", db="db", ds="ds", segs={"code": (1, 0xffff)}, share_asm="asmIntel", rep="dup"),
 ]
+# statements as large as / larger than the buffers of the writer and the lister (asmcode.c CodeBufferSize = 512,
+# asmdef.h MaxCodeLen_Ini = 256): sizes in bytes of ONE statement
+BIG_POOL = [254, 255, 256, 257, 258, 300, 384, 500, 508, 510, 511, 512, 513, 514, 516, 520, 600, 700, 767, 768, 769, 1000,
+            1022, 1023, 1024, 1025, 1026, 1100]
+STR_CHARS = "ABCDEFGHIJKLMNOPQRSTUVWXYZabcdefghijklmnopqrstuvwxyz0123456789"
+
+
+def big_size(rng):
+    return rng.choice(BIG_POOL) if rng.random() < 0.6 else rng.randrange(130, 1300)
+
+
+def render_big(rng, style, u, nbytes, values):
+    """operand text of one data statement of about `nbytes` bytes (elements of `u` bytes) -> (text, bytes emitted).
+    styles: `moto` = `[count]value` per operand (doc/pseudo-instructions.md, DC), `dup` = `count DUP (values)` (Intel DB),
+    `list` = plain operand list (at most 470 operands), `str` = strings and numbers (bytes), `zero` = `ZERO n` (PIC)"""
+    n = max(1, nbytes // u)
+    if style == "zero":
+        return str(n), n * u
+    if style == "list":
+        n = min(n, 470)
+        return ",".join(str(v) for v in values(n)), n * u
+    if style == "str":
+        ops, tot = [], 0
+        while tot < n and len(ops) < 400:
+            if rng.random() < 0.75 and n - tot >= 2:
+                k = min(n - tot, rng.randrange(2, 61))
+                ops.append('"%s"' % "".join(rng.choice(STR_CHARS) for _ in range(k)))
+                tot += k
+            else:
+                ops.append(str(values(1)[0]))
+                tot += 1
+        return ",".join(ops), tot * u
+    # repeat counts: split n over 1..3 repeated operands (+ sometimes plain ones in between)
+    parts = rng.choice([1, 1, 2, 3])
+    cuts = sorted(rng.randrange(1, n) for _ in range(parts - 1)) if n > parts else []
+    cnts = [b - a for a, b in zip([0] + cuts, cuts + [n]) if b - a > 0]
+    ops, tot = [], 0
+    for c in cnts:
+        if style == "moto":
+            if u == 1 and c >= 2 and rng.random() < 0.3:
+                ops.append('[%d]"%s"' % (c // 2, "".join(rng.choice(STR_CHARS) for _ in range(2))))
+                tot += c // 2 * 2
+            else:
+                ops.append("[%d]%d" % (c, values(1)[0]))
+                tot += c
+        else:
+            k = rng.choice([1, 1, 2, 3])
+            if c < k:
+                k = 1
+            ops.append("%d dup (%s)" % (c // k, ",".join(str(v) for v in values(k))))
+            tot += c // k * k
+        if rng.random() < 0.3:
+            ops.append(str(values(1)[0]))
+            tot += 1
+    return ",".join(ops), tot * u
+
 LEN_POOL = [1, 1, 2, 3, 5, 6, 6, 7, 8, 12, 13, 18, 19, 24, 25, 40]
 EQU_POOL = [0, 1, 9, 10, 255, 256, 0x1234, 65535, 65536, 2 ** 31, 2 ** 32 + 5, -1, -2, -32768, 2 ** 63 - 1, 0xabcdef]
 RADIX_POOL = [2, 3, 7, 8, 10, 15, 17, 32, 36]
@@ -42,6 +98,9 @@ class Prog:
                           ifblk=0, listoff=0, equ=0, shared=0, labels=0)
         self.unshared = []
         self.size = size
+        self.bigw = 2
+        self.stats["big"] = 0
+        self.stats["big_ge512"] = 0
 
     # -- plumbing
     def cur(self):
@@ -96,6 +155,21 @@ class Prog:
         self.stats["data"] += 1
         if n > 6:
             self.stats["longdata"] += 1
+
+    def big(self, kind="c"):
+        """one statement of 130..1300 bytes (repeat syntax of the target)"""
+        r = self.rng
+        nb = big_size(r)
+        if self.room() < nb + 8:
+            return self.data(kind)
+        text, n = render_big(r, self.tgt["rep"], 1, nb, self.vals)
+        lab = (self.label() + ":") if r.random() < 0.3 else ""
+        ln = self.add("%s\t%s %s" % (lab, self.tgt["db"], text))
+        self.ev(kind, n, ln)
+        self.stats["big"] += 1
+        self.stats["longdata"] += 1
+        if n >= 512:
+            self.stats["big_ge512"] += 1
 
     def reserve(self):
         k = self.rng.choice([1, 2, 3, 16])
@@ -188,7 +262,10 @@ class Prog:
             return
         self.add("\tlisting off")
         for _ in range(self.rng.randrange(1, 3)):
-            self.data(kind="h")
+            if self.rng.random() < 0.15:
+                self.big(kind="h")
+            else:
+                self.data(kind="h")
         self.add("\tlisting on")
         self.stats["listoff"] += 1
 
@@ -236,7 +313,7 @@ class Prog:
         if r.random() < 0.5:
             self.macrodef()
         kinds = [(self.data, 30), (self.reserve, 6), (self.org, 5), (self.segsw, 6), (self.phaseblk, 6), (self.macrocall, 8),
-                 (self.rept, 5), (self.include, 5), (self.ifblk, 5), (self.listoff, 4), (self.equ, 8), (self.shared, 4)]
+                 (self.rept, 5), (self.include, 5), (self.ifblk, 5), (self.listoff, 4), (self.equ, 8), (self.shared, 4), (self.big, self.bigw)]
         tot = sum(w for _, w in kinds)
         nst = r.randrange(6, self.size)
         fwd_done = False
@@ -345,7 +422,10 @@ def run_generated(bdir, wd, rng, nprog, numradix_mode, res_stats):
     metas = []
     for idx in range(nprog):
         base = "g%d" % idx
-        p = Prog(rng, base, 28 if idx % 4 else 60).build()
+        p = Prog(rng, base, 28 if idx % 4 else 60)
+        if idx % 10 == 9:
+            p.bigw, p.size = 45, 16          # every tenth program: mostly statements around the buffer sizes
+        p = p.build()
         radix = 16 if rng.random() < 0.6 else rng.choice(RADIX_POOL)
         shm = rng.choice(["p", "c", "a"])
         fmt = {"p": "pascal", "c": "c", "a": p.tgt["share_asm"]}[shm]
@@ -569,7 +649,7 @@ def run(args):
 
     res.coverage = common.proof_coverage(audit, "C19", [
         "harness: page-header stripping of the listing, file plumbing (python)",
-        "correspondence: real asl listing text vs Model.Listing.makeList / makeListW (Gran, ListGran, TurnWords from Generated/ListParams.lean); MAP order vs addLineInfo (differential test)",
+        "correspondence: real asl listing text vs Model.Listing.makeList / makeListW (Gran, ListGran, TurnWords from Generated/ListParams.lean) fed with the line buffer Model.Listing.writeBytesLine leaves behind (the WriteBytes model run over the whole emission history, record content compared with the code file); MAP order vs addLineInfo (differential test)",
         "translator: Generated/ListParams.lean = globals after every CPU switch, printed by a dumper linked against the current build (ld --wrap of MakeList/asmlist_init)",
         "self-calibrating probe: radix of the listing's %x numerals (affects the MODEL side only)",
         "source positions: the generator (python) renders a nesting tree into source files and INCLUDE arguments (FSearch order re-implemented for choosing unambiguous arguments); correspondence real MAP/NoICE records vs LineInfo.run + addFile + addLineInfo"])
@@ -579,10 +659,11 @@ def run(args):
         + sum(dist["lines"]["generated"][k] for k in ("map_entries", "noice_entries", "atmel_records", "listing_groups"))
         + sum(dist["symbols"]["generated"][k] for k in ("sym_list", "sym_share", "sym_included")),
         distinct_nontrivial=len(distinct),
-        rule="generated programs on z80/6502/8051/8086 (data lines 1..40 bytes with continuation lines, reservations, ORG, SEGMENT, PHASE, macros, REPT, nested INCLUDE, IF, LISTING OFF, EQU, SHARED incl. forward reference) x list radix x share format; evaluation = one listed line group / MAP entry / symbol value joined with the code file; distinct by (cpu, radix, share format, #groups, #bytes, #map entries); the same on word-listed / word-addressed targets (68000 dc.b/dc.w/dc.l with PADDING, TMS320C25, TMS320C30, PIC 16C84, ATmega8, MSP430, CP-1600, 80960: data lines of 1..13 units = up to 5 listing lines, byte-dumped remainders, reservations, ORG, SEGMENT, PHASE, macros, REPT, INCLUDE, LISTING OFF); source positions: nesting trees (main file + include files in several directories incl. equal base names and repeated inclusion, INCLUDE inside REPT/IRP/IRPN/IRPC/WHILE/macro bodies and nested, blocks in blocks and in macros, REPT 0 / WHILE 0, code after every block, continuation lines) on z80/6502/8051/8086, evaluation = one MAP / NoICE record or listing line group joined with the code file and the structural position (file, admissible lines), distinct by (cpu, #executed statements, #files, #records, #bytes); symbols: programs of EQU / SET / labels / section-local / float / string symbols on 13 targets of the four integer syntaxes (Intel, Motorola, C, IBM) x character set (ASCII, ISO 8859-1, UTF-8 via LC_CTYPE / LC_ALL / LANG / -codepage) x -h x -U x list radix x page width x share format, names of 2..110 characters with 0..90 % characters beyond ASCII, values with a letter as leading hex digit, negative values; evaluation = one symbol of the listing's symbol table / one share file definition / one symbol of the program that includes the assembler-format share file, compared with the value in the source; distinct by (cpu, character set, share format, -h, radix, #table cells, #shared)",
+        rule="generated programs on z80/6502/8051/8086 (data lines 1..40 bytes with continuation lines, single statements of 130..1300 bytes - DUP / [n] repeat operands, sizes around MaxCodeLen_Ini = 256 and CodeBufferSize = 512, also under LISTING OFF; every tenth program mostly such statements -, reservations, ORG, SEGMENT, PHASE, macros, REPT, nested INCLUDE, IF, LISTING OFF, EQU, SHARED incl. forward reference) x list radix x share format; evaluation = one listed line group / MAP entry / symbol value joined with the code file; distinct by (cpu, radix, share format, #groups, #bytes, #map entries); the same on word-listed / word-addressed targets (68000 dc.b/dc.w/dc.l with PADDING, TMS320C25, TMS320C30, PIC 16C84, ATmega8, MSP430, TMS9900, CP-1600, 80960: data lines of 1..13 units = up to 5 listing lines, single statements of 130..1300 bytes (68000 dc.b/dc.w/dc.l with [n] repeats, operand lists up to 470 operands and strings, MSP430/TMS9900 BYTE strings, PIC ZERO; a third more programs that consist mostly of such statements, every second one on the 68000; all three ways of WriteBytes - append / flush+buffer / write-through - counted per run; directives that do not enlarge the line buffer are kept at <= 256 bytes except in the programs generated to show the finding data-directive-overruns-code-buffer), byte-dumped remainders, reservations, ORG, SEGMENT, PHASE, macros, REPT, INCLUDE, LISTING OFF); source positions: nesting trees (main file + include files in several directories incl. equal base names and repeated inclusion, INCLUDE inside REPT/IRP/IRPN/IRPC/WHILE/macro bodies and nested, blocks in blocks and in macros, REPT 0 / WHILE 0, code after every block, continuation lines) on z80/6502/8051/8086, evaluation = one MAP / NoICE record or listing line group joined with the code file and the structural position (file, admissible lines), distinct by (cpu, #executed statements, #files, #records, #bytes); symbols: programs of EQU / SET / labels / section-local / float / string symbols on 13 targets of the four integer syntaxes (Intel, Motorola, C, IBM) x character set (ASCII, ISO 8859-1, UTF-8 via LC_CTYPE / LC_ALL / LANG / -codepage) x -h x -U x list radix x page width x share format, names of 2..110 characters with 0..90 % characters beyond ASCII, values with a letter as leading hex digit, negative values; evaluation = one symbol of the listing's symbol table / one share file definition / one symbol of the program that includes the assembler-format share file, compared with the value in the source; distinct by (cpu, character set, share format, -h, radix, #table cells, #shared)",
         samples=samples, distribution=dict(generated=agg, **dist))
     res.assumptions = ["word-listed lines of the golden corpus are joined by the general documented reading with every address-unit size and byte order for which the code file has records (no per-target knowledge)",
                        "generated word-listed programs: address-unit size, byte order, data directives and the even-address padding rule per target are generator knowledge (manufacturer documentation / doc/pseudo-instructions.md)",
+                       "statements of more than 256 bytes with a data directive that does not enlarge the line buffer (WORD of MSP430 / TMS9900 / TMS320C2x / C3x / CP-1600 / 80960, DATA of PIC / AVR) are generated only in the two (thorough: 26) programs that show the known finding data-directive-overruns-code-buffer; every failure of such a program is attributed to that finding",
                        "negative symbol values are compared modulo 2^64 (the files print the 64-bit two's complement)",
                        "NoICE and Atmel debug files: the line records of generated programs only (NoICE symbol definitions, Atmel code words are not compared)",
                        "a statement inside a macro expansion or inside a block nested in another block may be attributed to the line of an enclosing statement (macro call, opening line of the block) of the file being read: the manual only says 'the machine code generated for the source statement in a certain line'",
